@@ -243,6 +243,27 @@ def run(ctx):
         if got != want:
             ctx.spec_fail('sub|wrong-cells', 'sub does not apply re.sub(pattern, repl) to the cells of the field (and to nothing else)',
                           {'table': repr(T), 'pattern': pat, 'repl': repr(repl), 'count': count, 'flags': int(flags), 'real': got, 'want': want})
+    # ---- update(table, field, value): the value is stored as it is, whatever kind of object it is
+    class _Callable(object):
+        def __call__(self, *a):
+            return 'CALLED'
+        def __repr__(self):
+            return '<callable object>'
+    for ci in range(40 if ctx.thorough() else 12):
+        T = [['a', 'b']] + [[rng.choice([1, 2, 'x']), rng.choice(['p', 'q'])] for _ in range(rng.choice([1, 2, 3]))]
+        val = rng.choice([str, len, dict, _Callable(), (lambda r: 'CALLED'), 'plain', None, 0])
+        where = rng.choice([None, None, (lambda r: r[0] == 1)])
+        try:
+            rows = [tuple(r) for r in (etl.update(T, 'b', val) if where is None else etl.update(T, 'b', val, where=where))]
+            err = None
+        except Exception as e:   # noqa
+            rows, err = None, type(e).__name__
+        want = [('a', 'b')] + [(r[0], val if (where is None or where(r)) else r[1]) for r in T[1:]]
+        ctx.case(('update', repr(T), repr(val), where is not None))
+        ctx.count('op:update(value)')
+        if err is not None or len(rows) != len(want) or any(x[0] != y[0] or x[1] is not y[1] and x[1] != y[1] for x, y in zip(rows[1:], want[1:])):
+            ctx.spec_fail('update|wrong-cells', 'update does not put the given value itself into the cells of the field',
+                          {'table': repr(T), 'value': repr(val), 'where': where is not None, 'real': repr(rows), 'error': err})
     # ---- several converters in one call (dict and positional list), every converter form: each field gets its own converter
     FORMS = [('upper', lambda v: v.upper()), ('lower', lambda v: v.lower()), ('strip', lambda v: v.strip()),
              (('replace', 'a', 'Z'), lambda v: v.replace('a', 'Z')), (['ljust', 4, '.'], lambda v: v.ljust(4, '.')),
